@@ -109,7 +109,7 @@ func VerifFail(tag string) { VerifAssert(false, tag) }
 func VerifReach(tag string) { VerifReached[tag]++ }
 
 // VerifYield lets other goroutines run (executor: until they block; native: scheduler hint).
-func VerifYield() {}
+func VerifYield() { time.Sleep(30 * time.Millisecond) }
 
 // VerifSymbolic reports whether the code runs inside the symbolic executor.
 func VerifSymbolic() bool { return false }
